@@ -122,7 +122,7 @@ def scenario(rng):
 
 def run(tier, seed):
     ctx = core.Ctx(PID, tier, seed, LEVEL)
-    n = 2000 if tier == "quick" else core.share(40000)
+    n = 2000 if tier == "quick" else core.share(120000)
     legs = ["dev"] if tier == "quick" else ["dev", "release"]
     ctx.rule = ("random scenarios of 2-5 libraries (a stateful counter library with renamed/unexported internals, libraries importing it through different import sets, a library "
                 "referring to a name only the importer defines, a constant library) and a program importing them directly / prefixed / renamed / only indirectly, then 8-18 forms: "
